@@ -3,7 +3,7 @@ oracle (on the implementation): parse x -> ts; s = print d t; parse s == [t]; pr
 tie: PARSE and PRINT correspondence of the extracted parser / printer models on the same inputs."""
 import json
 
-from .. import core, sqlgen, stmt, exprgen
+from .. import core, sqlgen, stmt, stgen, exprgen
 
 PROP = "C01"
 
@@ -129,6 +129,17 @@ def run(run):
     tier_q = run.tier == "quick"
     cases = stmt.gen_cases(run, stmt.DIALECTS[:4] if tier_q else stmt.DIALECTS, 500 if tier_q else 6000)
     dis, fails, known = roundtrip_cases(run, cases, "round trip")
+    # statements of the structure-aware generator (windows with every frame shape, CASE / CAST / EXTRACT, nested queries, WITH, Hive clauses, brackets)
+    g = stgen.G(run.rng)
+    scases = []
+    for i in range(300 if tier_q else 4000):
+        t = g.statement()[0] if i % 8 else g.paren_case()[0]
+        scases.append(("HIVE" if g.hive else run.rng.choice(["MYSQL", "DEFAULT", "HIVE", "DB2"] if tier_q else stmt.DIALECTS), t))
+    d0, f0, k0 = roundtrip_cases(run, scases, "round trip: structure-aware statements")
+    dis += d0
+    fails += f0
+    for k in known:
+        known[k] += k0.get(k, 0)
     # directed streams: (1) every operator tree shape (= every explicit grouping) through the specification's emitter,
     # (2) every container construct around every dialect-sensitive / grouping-sensitive leaf
     d1, f1, k1 = roundtrip_cases(run, expression_cases(run, tier_q), "round trip: operator trees with explicit grouping")
